@@ -35,8 +35,8 @@ ASSUMPTIONS = [
     "nested functions / lambdas that differ only in closure values have the same source and are outside the statement",
 ]
 SHARDS = {"quick": 12, "thorough": 14}
-FLOORS = {"quick": {"histories": 800, "calls_checked": 2500, "old_version_calls": 700, "idreuse_achieved": 5, "forced_calls": 150, "fresh_process_sessions": 60, "unchanged_sessions_checked": 8, "histories_with_two_cache_directories": 100, "hash_colliding_code_swaps": 30},
-          "thorough": {"idreuse_achieved": 50, "histories": 30000, "calls_checked": 100000, "old_version_calls": 30000, "fresh_process_sessions": 2000, "unchanged_sessions_checked": 250, "histories_with_two_cache_directories": 3000, "hash_colliding_code_swaps": 500}}
+FLOORS = {"quick": {"histories": 800, "calls_checked": 2500, "old_version_calls": 700, "idreuse_achieved": 5, "forced_calls": 150, "fresh_process_sessions": 60, "unchanged_sessions_checked": 8, "histories_with_two_cache_directories": 100, "hash_colliding_code_swaps": 30, "histories_with_one_directory_under_two_spellings": 40},
+          "thorough": {"idreuse_achieved": 50, "histories": 30000, "calls_checked": 100000, "old_version_calls": 30000, "fresh_process_sessions": 2000, "unchanged_sessions_checked": 250, "histories_with_two_cache_directories": 3000, "hash_colliding_code_swaps": 500, "histories_with_one_directory_under_two_spellings": 1000}}
 
 EXEC = []
 _uid = [0]
@@ -142,6 +142,10 @@ def samefile_module(d):
 
 def run_history(style, h, ctx, d, shape=None, two_dirs=False):
     from joblib import Memory
+    if two_dirs == "alias" and style == "reload":
+        # under one directory the second wrapper of a definition is validated through the in-memory table and does not read
+        # the source file at its warm-up call: the 'called once before the file is rewritten' premise of this style would not hold
+        two_dirs = True
     if shape:
         ctx.count("shaped_histories")
         ctx.count("shape:" + shape)
@@ -150,11 +154,15 @@ def run_history(style, h, ctx, d, shape=None, two_dirs=False):
     with warnings.catch_warnings():
         warnings.simplefilter("ignore")
         mem = Memory(cache, verbose=0)
-        mem_b = Memory(cache + "_b", verbose=0) if two_dirs else None
+        # "alias": the SAME directory under another spelling of its path
+        mem_b = (Memory(os.path.join(os.path.dirname(cache), ".", os.path.basename(cache)) if two_dirs == "alias" else cache + "_b", verbose=0)
+                 if two_dirs else None)
     live = {}
     live_b = {}      # the same function objects cached by a second Memory on another directory
     if two_dirs:
         ctx.count("histories_with_two_cache_directories")
+    if two_dirs == "alias":
+        ctx.count("histories_with_one_directory_under_two_spellings")
     modfile = os.path.join(d, "c12reload.py")
     ctx.count("histories")
     sys.modules.pop("c12reload", None)
@@ -344,7 +352,7 @@ def run_case(case, ctx):
                     del EXEC[:]
                     if st in ("cells", "samefile", "reload") and len(item["h"]) >= 3 and _shape_i[0] % 3 == 0:
                         ctx.evaluated()
-                        run_history(st, [tuple(s) for s in item["h"]], ctx, d, two_dirs=True)
+                        run_history(st, [tuple(s) for s in item["h"]], ctx, d, two_dirs=True if _shape_i[0] % 2 else "alias")
                         del EXEC[:]
                     if st in ("cells", "reload") and len(item["h"]) >= 3:
                         # the same history with the versions' difference placed elsewhere in the definition
@@ -365,7 +373,7 @@ def run_case(case, ctx):
                 ctx.evaluated()
                 st = rng.choice(["cells", "samefile", "samefile", "lambda", "nested", "reload", "codeswap"])
                 run_history(st, h, ctx, d, shape=rng.choice(c12_shapes.NAMES) if st in ("cells", "reload") and rng.random() < 0.7 else None,
-                            two_dirs=rng.random() < 0.3)
+                            two_dirs=rng.choice([False, False, False, True, "alias"]))
                 del EXEC[:]
             if case["i"] % 20 == 0:
                 ctx.sample(dict(style="random", history=h))
